@@ -30,6 +30,19 @@ def corpus():
     return _CORPUS
 
 
+_MULTI = None
+
+
+def multiform():
+    """Payloads (mined offline from mutants and splices of the genuine corpus) that decoders of different forms accept
+    at the same time - frame and bare-body decoders, or binary and P1 - so that the order in which the table is walked matters."""
+    global _MULTI
+    if _MULTI is None:
+        with open(os.path.join(_HERE, "..", "corpus", "multiform.json")) as f:
+            _MULTI = [bytes.fromhex(v) for _, v in sorted(json.load(f).items())]
+    return _MULTI
+
+
 def own_decoder(entry) -> str:
     if entry["meter"] == "P1":
         return "P1"
@@ -95,7 +108,23 @@ def p1_garbage(rng) -> bytes:
     return "".join(rng.choice(pieces) for _ in range(n)).encode()
 
 
+NUMERIC_TOKENS = [b"inf", b"-Infinity", b"nan", b"1e400", b"0001e306", b"1e999", b"1e199996", b"1E999996", b"-0", b"1_000.5", b"0x10", b".", b"1..2", b"+1.5", b"9" * 40, b"1e-999999"]
+
+
+def p1_numeric_token(rng, block: bytes) -> bytes:
+    """Replace one numeric value '(digits.digits' by a token Python's float()/Decimal() treat specially."""
+    import re
+
+    spans = [m.span(1) for m in re.finditer(rb"\((\d+\.\d+)", block)]
+    if not spans:
+        return block
+    a, b = rng.choice(spans)
+    return block[:a] + rng.choice(NUMERIC_TOKENS) + block[b:]
+
+
 def p1_mutated(rng, block: bytes) -> bytes:
+    if rng.random() < 0.25:
+        return p1_numeric_token(rng, block)
     out = bytearray(block)
     for _ in range(rng.randint(1, 4)):
         if not out:
@@ -123,6 +152,8 @@ def draw_payload(rng):
     pool = corpus()
     r = rng.random()
     e = rng.choice(pool)
+    if rng.random() < 0.06:
+        return rng.choice(multiform()), {"k": "multiform"}
     if r < 0.3:
         return e["data"], {"k": "genuine", "src": e["name"]}
     if r < 0.5:
